@@ -12,15 +12,14 @@ Proof.
   assert (AP : forall kd o0 n w, all_registered (fst (add_port s kd o0 n w))).
   { intros. unfold add_port. destruct (negb _); [exact Hreg|]. destruct (_ && _ && _); exact Hreg. }
   assert (MV : forall w np nn, all_registered (fst (move s w np nn))).
-  { intros w np nn. destruct (move s w np nn) as [s' out] eqn:E. apply move_cases in E.
+  { intros w np nn. destruct (move s w np nn) as [s' out] eqn:E. apply move_cases in E; auto.
     destruct E as [[E _]|[_ [Hw E]]]; cbn [fst]; [subst; exact Hreg|].
-    cbn in E. destruct E as [Hp' [Hpre [Hm E]]]. subst s'.
+    cbn in E. destruct E as [Hp' [Hpre [Hm [Hm2 E]]]]. subst s'.
     set (p := wparent s w) in *. set (n := wname s w) in *.
     set (p' := match np with Some y => y | None => p end) in *.
     set (n' := match nn with Some y => y | None => n end) in *.
     set (T1 := upd (owires s) p (tdel (owires s p) n)) in *.
     intros x Hx. cbn in Hx. unfold registered. cbn.
-    assert (Hm2 : tmem (T1 p') n' = false) by (apply tmem_after_del; exact Hpre).
     unfold upd at 2 3. destruct (Nat.eqb_spec x w) as [E|E].
     - subst x. rewrite upd_same, tget_tput.
       unfold tmem in Hm2. destruct (tget (T1 p') n'); [discriminate|]. now rewrite Z.eqb_refl.
@@ -72,5 +71,8 @@ Lemma failed_rename_harmless :
   dump s = dump s0 /\
   snd (step s (Rename 0 3%Z)) = Ok /\
   tget (owires (exec s (Rename 0 3%Z)) 0) 2%Z = Some 1 /\ tget (owires (exec s (Rename 0 3%Z)) 0) 3%Z = Some 0 /\
-  snd (step s (Rename 0 2%Z)) = Raise (CWire 0 2%Z).
+  snd (step s (Rename 0 2%Z)) = Raise (CWire 0 2%Z) /\
+  (* moving a wire onto its own slot is not a collision: rename to the current name, reparent to the current parent *)
+  snd (step s (Rename 0 1%Z)) = Ok /\ snd (step s (Reparent 1 0)) = Ok /\ snd (step s (ReparentAndRename 1 0 2%Z)) = Ok /\
+  dump (exec s (Reparent 1 0)) = dump s.
 Proof. vm_compute. repeat split; reflexivity. Qed.
